@@ -29,10 +29,18 @@ TRUSTED = ["HMAC-SHA256 is an uninterpreted function argument H of the model; th
            "OCaml SHA-256 written for this check, the harness forges cookies with Go crypto/hmac",
            "the wall clock is read from the implementation's output (second granularity); cases are re-run by the "
            "harness when the second changes mid-case; lifetimes are whole seconds",
-           "c.sessions is keyed by the tuple in the model (the Go key string mac:svlan:cvlan is injective)"]
+           "c.sessions is keyed by the tuple in the model; the Go key string mac:svlan:cvlan is proved injective for "
+           "6-byte MACs (C04_session_key_injective) and its equivalence classes are observed (op K)",
+           "the model uses std++ gmap / Nmap (finite maps) in addition to the Coq standard library; no axioms "
+           "(every theorem prints Closed under the global context)",
+           "white-box seams of the harness: cookie secret / ttl set by reflection, nextSessionID positioned, Phase set "
+           "before a CHAP name frame, fakes for opdb / southbound / cache around restoreFromHASync, an AccessResolver "
+           "gate inside handlePADR whose position (sidMu held) is part of the compared output"]
 ASSUMPTIONS = ["H_mac_unforgeable (premise of C04_cookie_sound / C04_admission, for the one tag presented): a 32-byte "
                "value that verifies under the secret was produced by Generate for exactly that message",
-               "restored sessions (installInMemoryState) carry pairwise distinct non-zero ids that are not in use",
+               "START-UP restored sessions (installInMemoryState, op X) carry pairwise distinct non-zero ids that are not "
+               "in use (own checkpoint, written from a table for which the distinctness theorem held); RUN-TIME HA "
+               "restores (restoreFromHASync, op H) carry arbitrary ids and are fully modelled",
                "packet handlers are atomic except handlePADR, which is split at the one point where it releases all locks "
                "(between allocateSessionID and addToIndexes); every interleaving of those halves is covered"]
 
@@ -413,6 +421,9 @@ def gen_tb_hasync(rng, tier):
                              "H/3/%s" % tup(peer), "R/%s/%s" % (tup(own), ck_valid(own)), "S/%s/3/cr" % tup(peer)]),
             head + " ".join([R, "T/%s/1" % tup(own), "H/1/%s" % tup(peer), "H/1/%s" % tup(own), "S/%s/1/cr" % tup(peer)]),
             head + " ".join(["H/65535/%s" % tup(peer), R, "H/65535/%s" % tup(own), "P/2/100"]),
+            # restore of a far-away free id concurrently with a PADR: order-independent result
+            head + " ".join([R, "R/%s/%s" % (tup(A3), ck_valid(A3)), "T/%s/1" % tup(own),
+                             "J/1/%s/%s" % (tup(peer), "020000dd0004"), "S/%s/1/cr" % tup(peer)]),
             head + " ".join(["X/7/%s/626f62" % tup(own), "H/7/%s/626f62" % tup(peer), "T/%s/7" % tup(peer), "T/%s/7" % tup(own)]),
         ]
     return cases
